@@ -607,6 +607,65 @@ def rule_z9(repo):
             '%s:%d' % (Z3W, sites[0].lineno))
     return res
 
+def rule_z12(repo):
+    """A bound variable of type nat is translated to a Z3 integer; what makes it a natural number is the guard `v >= 0` that the branch puts
+    into the body (Z1).  A branch that opens a binder with *several* Z3 variables (unique existence: a witness and a second variable for
+    the uniqueness part) owes the guard to each of them.  For every Z3 constant that a branch of `convert.rec` makes at the type of a
+    binder (`convert_const(.., <..>.var_T, ..)`), the branch contains `<that constant> >= 0` under the test that the type is nat.  Without
+    it the second variable ranges over the negative integers too: in a premise the formula is too strong, and
+    (?!n::nat. n <= 0) --> false is "proved"."""
+    res = RuleResult('C06.Z12', 'every Z3 variable made for a binder of type nat gets the guard v >= 0', floor=2)
+    Z3W = 'prover/z3wrapper.py'
+    f = repo.func(Z3W, 'convert.<locals>.rec')
+    flow = flow_of(f.node)
+
+    def binder_type0(e):
+        p_ = path_of(flow.inline(e)) or ''
+        return p_.endswith('.var_T')
+    # the branches of the dispatch: bodies of the top-level if / elif chain
+    branches = []
+    for st in f.node.body:
+        cur = st
+        while isinstance(cur, ast.If):
+            branches.append((cur.test, cur.body))
+            cur = cur.orelse[0] if len(cur.orelse) == 1 and isinstance(cur.orelse[0], ast.If) else None
+    n_vars = 0
+    for test, body in branches:
+        made = []
+        # a local of the branch that names the binder's type (T = t.arg.var_T)
+        local_types = {a.targets[0].id for a in [x for st in body for x in ast.walk(st)] if isinstance(a, ast.Assign) and len(a.targets) == 1 and
+                       isinstance(a.targets[0], ast.Name) and (path_of(a.value) or '').endswith('.var_T')}
+        _bt = binder_type0
+
+        def binder_type(e, local_types=local_types):
+            return _bt(e) or (isinstance(e, ast.Name) and e.id in local_types)
+        for a in [x for st in body for x in ast.walk(st)]:
+            if not isinstance(a, ast.Assign):
+                continue
+            v = a.value
+            if isinstance(v, ast.Call) and (call_name(v) or '').endswith('convert_const') and len(v.args) >= 2 and binder_type(v.args[1]) and isinstance(a.targets[0], ast.Name):
+                made.append(a.targets[0].id)
+            if isinstance(v, (ast.ListComp, ast.GeneratorExp)) and isinstance(v.elt, ast.Call) and (call_name(v.elt) or '').endswith('convert_const') and \
+                    len(v.elt.args) >= 2 and binder_type(v.elt.args[1]) and isinstance(a.targets[0], (ast.Tuple, ast.List)):
+                made += [e.id for e in a.targets[0].elts if isinstance(e, ast.Name)]
+        for var in made:
+            n_vars += 1
+            guarded = False
+            for i_ in [x for st in body for x in ast.walk(st) if isinstance(x, ast.If)]:
+                if 'NatType' not in src(i_.test, 120):
+                    continue
+                for c in [y for st in i_.body for y in ast.walk(st)]:
+                    cp = compare_parts(c) if isinstance(c, ast.Compare) else None
+                    if cp and cp[0] is ast.GtE and is_name(cp[1], var) and isinstance(cp[2], ast.Constant) and cp[2].value == 0:
+                        guarded = True
+            res.add('%s :: convert.rec :: binder-variable(%s)@%s' % (Z3W, var, src(test, 30)), guarded,
+                    '`%s >= 0` is added when the binder ranges over nat' % var if guarded else
+                    'the branch `%s` makes the Z3 variable `%s` at the type of the binder and never adds `%s >= 0` for nat: the variable ranges over the negative '
+                    'integers as well, and in a premise the translated formula says more than the HOL one ((?!n::nat. n <= 0) --> false is solved)' % (
+                        src(test, 40), var, var), '%s:%d' % (Z3W, test.lineno))
+    need(n_vars, 'convert.rec: no Z3 variable made at the type of a binder found')
+    return res
+
 
 def rule_s4(repo):
     """solve_with_interval accepts a goal when the set of solutions within the premise's interval is that interval (or, for
@@ -779,4 +838,4 @@ def rule_s5(repo):
 
 
 def rules(repo):
-    return [rule_z1(repo)] + rule_z2_z3(repo) + [rule_z4(repo), rule_s1(repo), rule_s2(repo), rule_s3(repo), rule_s4(repo), rule_z5(repo), rule_z6(repo), rule_z7(repo), rule_z8(repo), rule_z9(repo), rule_z10(repo), rule_z11(repo), rule_s5(repo)]
+    return [rule_z1(repo)] + rule_z2_z3(repo) + [rule_z4(repo), rule_s1(repo), rule_s2(repo), rule_s3(repo), rule_s4(repo), rule_z5(repo), rule_z6(repo), rule_z7(repo), rule_z8(repo), rule_z9(repo), rule_z10(repo), rule_z11(repo), rule_s5(repo), rule_z12(repo)]
